@@ -220,7 +220,15 @@ def clause_d(ctx, P):
         ctx.ob("C10d.query-on-every-interface", "%s|send#%d" % (s.name, j + 1), ok, s.loc(b), "the query is sent for every interface of my_intfs, outside the known-answer loop")
 
 
+def clause_e(ctx, P):
+    """a suppressed PTR takes its additionals with it: SRV/TXT/address additionals are added only after the PTR answer
+    was really added (same rule as C06d)"""
+    from . import c06
+    c06.clause_d(ctx, P)
+
+
 def run(ctx, P):
+    clause_e(ctx, P)
     clause_a(ctx, P)
     clause_b(ctx, P)
     clause_c(ctx, P)
